@@ -570,3 +570,144 @@ def iv_cmp_concrete(p, m):
     else:
         want = T[0] <= S[0] and S[1] <= T[1]
     return r is want or (r == want and r is not None and want is not None), '%s(%r, %r) = %r, definition gives %r' % (fn, s, t, r, want)
+
+
+# ------------------------------------------------------------------------------ complex intervals (C15)
+def ivc_arith(p):
+    """mpci_add / mpci_sub / mpci_neg / mpci_pos / mpci_mul / mpci_square and the iv.mpc operators: each part of the returned
+    rectangle contains the exact part for every corner of the operand rectangles (multilinear forms attain their extremes
+    over a box at its corners)."""
+    fn, prec = p['fn'], p['prec']
+    xs, ys = p['x'], p.get('y', [[['zero'], ['zero']], [['zero'], ['zero']]])     # [[re_lo, re_hi], [im_lo, im_hi]]
+    flat = [e for part in xs for e in part] + [e for part in ys for e in part]
+    if any(s[0] in (NINF, PINF) for s in flat):
+        raise Unsupported('finite rectangles only')
+    lo = spec_lo(*flat)
+    top = spec_top(*flat)
+    mul = fn in ('mpci_mul', 'mpci_square')
+    ob = Ob(wbump(p, (2 * top if mul else top) + 2 * prec + 90), timeout_s=p.get('_t', 60), mul_precise_bits=4096)
+    base = ob.int('base', -E30, E30)
+    names = iter(['xa', 'xb', 'xc', 'xd', 'ya', 'yb', 'yc', 'yd'])
+    E = [mk_end(ob, next(names), s, base, lo) for s in flat]
+    xa, xb, xc, xd, ya, yb, yc, yd = E
+    for l, h in ((xa, xb), (xc, xd), (ya, yb), (yc, yd)):
+        ob.assume.append(le_end(l, h))
+    X = ((xa.tup, xb.tup), (xc.tup, xd.tup))
+    Y = ((ya.tup, yb.tup), (yc.tup, yd.tup))
+    Li = libmpi()
+    entry = p.get('entry', 'libmp')
+    unary = fn in ('mpci_neg', 'mpci_pos', 'mpci_square')
+    if entry == 'libmp':
+        outs = ob.run(getattr(Li, fn), [X, prec] if unary else [X, Y, prec])
+        unwrap = lambda v, st: v
+    else:
+        import mpmath
+        iv = mpmath.iv
+        iv.prec = prec
+        xo, yo = iv.make_mpc(X), iv.make_mpc(Y)
+        meth = {'mpci_add': '__add__', 'mpci_sub': '__sub__', 'mpci_mul': '__mul__', 'mpci_neg': '__neg__', 'mpci_pos': '__pos__'}[fn]
+        outs = ob.run(getattr(iv.mpc, meth), [xo] if unary else [xo, yo])
+        cls = iv.mpc
+
+        def unwrap(v, st):
+            if not isinstance(v, cls):
+                return None
+            h = st.heap.get((id(v), '_mpci_'))
+            return h[1] if h is not None else v._mpci_
+    K = (2 * top if mul else top) + prec + 8
+    if not mul:
+        unit = zt(base) + B(lo)
+        sg = -1 if fn == 'mpci_sub' else 1
+        if fn == 'mpci_add' or fn == 'mpci_sub':
+            re_l, re_h = [xa.val + sg * (ya.val if sg > 0 else yb.val)], [xb.val + sg * (yb.val if sg > 0 else ya.val)]
+            im_l, im_h = [xc.val + sg * (yc.val if sg > 0 else yd.val)], [xd.val + sg * (yd.val if sg > 0 else yc.val)]
+        elif fn == 'mpci_neg':
+            re_l, re_h, im_l, im_h = [-xb.val], [-xa.val], [-xd.val], [-xc.val]
+        else:
+            re_l, re_h, im_l, im_h = [xa.val], [xb.val], [xc.val], [xd.val]
+    else:
+        unit = zt(base) + zt(base) + B(2 * lo)
+        bnd = (-(1 << top), 1 << top)
+
+        def mulv(u, v):
+            return V.narrow_mul(u, v, bnd, bnd)
+        res, ims = [], []
+        if fn == 'mpci_square':
+            for a_ in (xa, xb):
+                for b_ in (xc, xd):
+                    res.append(mulv(a_.val, a_.val) - mulv(b_.val, b_.val))
+                    ims.append(mulv(a_.val, b_.val) << 1)
+            # a^2 - b^2 is not multilinear: interior minimum of a^2 (resp. b^2) at 0 when the interval straddles zero
+            for a_ in ((xa, xb) if not (xs[0][0][0] == 'neg' and xs[0][1][0] == 'pos') else ()):
+                pass
+            zero_a = xs[0][0][0] in ('neg', 'zero') and xs[0][1][0] in ('pos', 'zero')
+            zero_b = xs[1][0][0] in ('neg', 'zero') and xs[1][1][0] in ('pos', 'zero')
+            if zero_a:
+                for b_ in (xc, xd):
+                    res.append(-mulv(b_.val, b_.val))
+            if zero_b:
+                for a_ in (xa, xb):
+                    res.append(mulv(a_.val, a_.val))
+            if zero_a and zero_b:
+                res.append(B(0))
+        else:
+            for a_ in (xa, xb):
+                for b_ in (xc, xd):
+                    for c_ in (ya, yb):
+                        for d_ in (yc, yd):
+                            res.append(mulv(a_.val, c_.val) - mulv(b_.val, d_.val))
+                            ims.append(mulv(a_.val, d_.val) + mulv(b_.val, c_.val))
+        re_l = re_h = res
+        im_l = im_h = ims
+
+    def good(val, st):
+        val = unwrap(val, st)
+        if val is None or not isinstance(val, tuple) or len(val) != 2:
+            return False
+        return contains_goals(val[0], re_l, re_h, unit, K, prec) + contains_goals(val[1], im_l, im_h, unit, K, prec)
+    return finish(ob, ob.prove(outs, good))
+
+
+def ivc_arith_concrete(p, m):
+    import itertools
+    fn, prec = p['fn'], p['prec']
+    xs, ys = p['x'], p.get('y', [[['zero'], ['zero']], [['zero'], ['zero']]])
+    flat = [e for part in xs for e in part] + [e for part in ys for e in part]
+    base = m.get('base', 0)
+    names = ['xa', 'xb', 'xc', 'xd', 'ya', 'yb', 'yc', 'yd']
+    T = [conc_end(m, n, s, base) for n, s in zip(names, flat)]
+    X = ((T[0], T[1]), (T[2], T[3]))
+    Y = ((T[4], T[5]), (T[6], T[7]))
+    Li = libmpi()
+    unary = fn in ('mpci_neg', 'mpci_pos', 'mpci_square')
+    if p.get('entry', 'libmp') == 'libmp':
+        r = getattr(Li, fn)(*([X, prec] if unary else [X, Y, prec]))
+    else:
+        import mpmath
+        iv = mpmath.iv
+        iv.prec = prec
+        xo, yo = iv.make_mpc(X), iv.make_mpc(Y)
+        r = {'mpci_add': lambda: xo + yo, 'mpci_sub': lambda: xo - yo, 'mpci_mul': lambda: xo * yo, 'mpci_neg': lambda: -xo, 'mpci_pos': lambda: +xo}[fn]()._mpci_
+    lo = spec_lo(*flat)
+    E0 = base + lo
+    F = [_frac_end(t, E0) for t in T]
+    mul = fn in ('mpci_mul', 'mpci_square')
+
+    def grid(l, h):
+        return [l, h, (l + h) / 2, (2 * l + h) / 3] + ([Fraction(0)] if l <= 0 <= h else [])
+    res, ims = [], []
+    for a in grid(F[0], F[1]):
+        for b in grid(F[2], F[3]):
+            if unary:
+                z = {'mpci_neg': (-a, -b), 'mpci_pos': (a, b), 'mpci_square': (a * a - b * b, 2 * a * b)}[fn]
+                res.append(z[0]); ims.append(z[1])
+                continue
+            for c in grid(F[4], F[5]):
+                for d in grid(F[6], F[7]):
+                    z = {'mpci_add': (a + c, b + d), 'mpci_sub': (a - c, b - d), 'mpci_mul': (a * c - b * d, a * d + b * c)}[fn]
+                    res.append(z[0]); ims.append(z[1])
+    sh = 2 * E0 if mul else E0
+    ok, d = _concrete_contains(r[0], res, sh, prec)
+    if ok:
+        ok, d = _concrete_contains(r[1], ims, sh, prec)
+    return ok, d
